@@ -76,7 +76,7 @@ enum Kind {
     GetObject, Dereference, GetDictionary, GetObjectMut, HasObject, GetDictInDict, Catalog, GetPages, PageIter,
     PageContents, PageContent, DecodeContent, PageResources, PageFonts, PageAnnots, PageImages, ObjectPage,
     ExtractText, ExtractChunks, Outlines, Toc, OutlineNode, NamedDests, FontEncoding,
-    StreamFilters, StreamDecompress, StreamPlain, StreamDecode,
+    StreamFilters, StreamDecompress, StreamPlain, StreamDecode, Accessors,
 }
 use Kind::*;
 
@@ -88,7 +88,7 @@ const KINDS: &[(Kind, &str)] = &[
     (ObjectPage, "get_object_page"), (ExtractText, "extract_text"), (ExtractChunks, "extract_text_chunks"), (Outlines, "get_outlines"),
     (Toc, "get_toc"), (OutlineNode, "get_outline"), (NamedDests, "get_named_destinations"), (FontEncoding, "get_font_encoding"),
     (StreamFilters, "Stream::filters"), (StreamDecompress, "Stream::decompressed_content"), (StreamPlain, "Stream::get_plain_content"),
-    (StreamDecode, "Stream::decode_content"),
+    (StreamDecode, "Stream::decode_content"), (Accessors, "Object::as_*"),
 ];
 
 fn kind_name(k: Kind) -> &'static str { KINDS.iter().find(|(x, _)| *x == k).map(|(_, n)| *n).unwrap() }
@@ -285,6 +285,35 @@ fn run_inst(doc: &Document, kind: Kind, arg: ObjectId) -> Res {
             }
             _ => ok(false, "not applicable".into()),
         },
+        Accessors => match stored(doc, arg) {
+            None => ok(false, "not applicable".into()),
+            Some(o) => {
+                // model: exactly the accessor of the object's own variant answers Ok
+                let got = [o.as_bool().is_ok(), o.as_i64().is_ok(), o.as_f32().is_ok(), o.as_name().is_ok(), o.as_str().is_ok(), o.as_array().is_ok(), o.as_dict().is_ok(), o.as_stream().is_ok(), o.as_reference().is_ok()];
+                let want = [matches!(o, Object::Boolean(_)), matches!(o, Object::Integer(_)), matches!(o, Object::Real(_)), matches!(o, Object::Name(_)), matches!(o, Object::String(..)), matches!(o, Object::Array(_)),
+                            matches!(o, Object::Dictionary(_)), matches!(o, Object::Stream(_)), matches!(o, Object::Reference(_))];
+                let mut model = if got != want { Some(("lookup-model", format!("as_* accessors answer {:?} on a {} (expected {:?})", got, o.enum_variant(), want))) } else { None };
+                if o.as_float().is_ok() != matches!(o, Object::Integer(_) | Object::Real(_)) { model = Some(("lookup-model", format!("as_float on a {}", o.enum_variant()))); }
+                let _ = o.type_name();
+                let _ = o.is_null();
+                let dict = match o { Object::Dictionary(d) => Some(d), Object::Stream(s) => Some(&s.dict), _ => None };
+                let mut n = 0;
+                if let Some(d) = dict {
+                    let _ = d.get_type();
+                    let _ = d.has_type(b"Page");
+                    if d.get(b"\0no such key").is_ok() || d.has(b"\0no such key") { model = Some(("lookup-model", "Dictionary::get found an absent key".into())); }
+                    for (k, v) in d.iter() {
+                        n += 1;
+                        match d.get(k) { Ok(x) if std::ptr::eq(x, v) => {}, _ => model = Some(("lookup-model", format!("Dictionary::get({:?}) does not return the stored value", String::from_utf8_lossy(k)))) }
+                        let r = d.get_deref(k, doc);
+                        let m = match v { Object::Reference(id) => check_lookup(doc, *id, r.map(p).map_err(|e| e.to_string()), false, "get_deref"),
+                                          _ => match r { Ok(x) if std::ptr::eq(x, v) => None, _ => Some(("lookup-model", "get_deref of a direct value does not return it".to_string())) } };
+                        if m.is_some() { model = m; }
+                    }
+                }
+                Res { model, ..ok(n > 0, format!("{} with {} keys", o.enum_variant(), n)) }
+            }
+        },
         StreamFilters | StreamDecompress | StreamPlain | StreamDecode => match stored(doc, arg) {
             Some(Object::Stream(s)) => match kind {
                 StreamFilters => from_result(&s.filters(), |v| !v.is_empty(), |v| format!("{} filters", v.len())),
@@ -308,13 +337,13 @@ struct Family {
     base: Vec<(ObjectId, Object)>,
     trailer: Dictionary,
     slots: Vec<Slot>,
-    custom: Option<(fn(&[usize]) -> Document, Vec<usize>)>,
+    custom: Option<(fn(&[usize]) -> Document, Vec<usize>, Vec<usize>)>,
     insts: Vec<(Kind, ObjectId)>,
 }
 
 impl Family {
     fn radices(&self, thorough: bool) -> Vec<usize> {
-        if let Some((_, r)) = &self.custom { return r.clone(); }
+        if let Some((_, full, quick)) = &self.custom { return if thorough { full.clone() } else { quick.clone() }; }
         self.slots.iter().map(|s| if thorough { s.vals.len() } else { s.nq.min(s.vals.len()) }).collect()
     }
     fn count(&self, thorough: bool) -> u64 { self.radices(thorough).iter().map(|r| *r as u64).product() }
@@ -327,7 +356,7 @@ impl Family {
     }
     fn build(&self, idx: u64, thorough: bool) -> Document {
         let dg = self.digits(idx, thorough);
-        if let Some((f, _)) = &self.custom { return f(&dg); }
+        if let Some((f, _, _)) = &self.custom { return f(&dg); }
         let mut objects: BTreeMap<ObjectId, Object> = self.base.iter().cloned().collect();
         let mut trailer = self.trailer.clone();
         for (s, &k) in self.slots.iter().zip(dg.iter()) {
@@ -408,6 +437,22 @@ fn build_chain(dg: &[usize]) -> Document {
     make_doc(o, root_trailer())
 }
 
+const UKEYS: &[&str] = &["Kids", "Parent", "Count", "Contents", "Resources", "Font", "XObject", "ColorSpace", "Annots", "Outlines", "Dests", "Names", "Pages", "Dest", "A", "D", "S", "Title",
+                         "Encoding", "ToUnicode", "Filter", "DecodeParms", "Length", "F1", "Im1", "Subtype", "Width", "Height", "BitsPerComponent"];
+/// three dictionaries; dictionary j binds every key of UKEYS to the same value v_j and has /Type t_j
+fn build_uniform(dg: &[usize]) -> Document {
+    let mut o: BTreeMap<ObjectId, Object> = BTreeMap::new();
+    for j in 0..3 {
+        let v = match dg[2 * j] { 0 => Some(r(1)), 1 => Some(r(2)), 2 => Some(a(vec![r(1), r(2), r(3)])), 3 => Some(r(99)), 4 => Some(r(3)), _ => None };
+        let t = match dg[2 * j + 1] { 0 => Some(n("Pages")), 1 => Some(n("Page")), 2 => Some(n("Font")), _ => None };
+        let mut dict = Dictionary::new();
+        if let Some(t) = t { dict.set("Type", t); }
+        if let Some(v) = v { for k in UKEYS { dict.set(*k, v.clone()); } }
+        o.insert((j as u32 + 1, 0), Object::Dictionary(dict));
+    }
+    make_doc(o, root_trailer())
+}
+
 fn families() -> Vec<Family> {
     let mut out = vec![];
     let plain = |name, what, base: Vec<(u32, Object)>, slots, insts| Family { name, what, base: base.into_iter().map(|(k, v)| ((k, 0), v)).collect(), trailer: root_trailer(), slots, custom: None, insts };
@@ -418,7 +463,7 @@ fn families() -> Vec<Family> {
                              d(dictionary! { "K" => r(1) }), a(vec![r(2)])]);
         let ids = [(1, 0), (2, 0), (5, 3), (5, 0), (9, 0)];
         let mut insts = vec![];
-        for id in ids { for k in [GetObject, Dereference, GetDictionary, GetObjectMut, HasObject, GetDictInDict] { insts.push((k, id)); } }
+        for id in ids { for k in [GetObject, Dereference, GetDictionary, GetObjectMut, HasObject, GetDictInDict, Accessors] { insts.push((k, id)); } }
         out.push(Family { name: "lookup", what: "objects 1 0, 2 0, 5 3 each one of {ref to each of the three, ref 5 0 (wrong generation), ref 9 0 (dangling), integer, dictionary, array}; lookups of the 3 ids and of 5 0 and 9 0",
             base: vec![], trailer: Dictionary::new(),
             slots: vec![Slot { tgt: Tgt::Whole((1, 0)), vals: w(), nq: 8 }, Slot { tgt: Tgt::Whole((2, 0)), vals: w(), nq: 8 }, Slot { tgt: Tgt::Whole((5, 3)), vals: w(), nq: 8 }],
@@ -432,7 +477,7 @@ fn families() -> Vec<Family> {
         insts.extend(on(&[OutlineNode], 5));
         insts.extend(on(&[FontEncoding], 8));
         out.push(Family { name: "chain", what: "a chain of n in {1,2,3,6,127,128,129,130,300} references starting at object 10 and ending in {integer, dangling ref, ref back to 10, ref to itself, dictionary, stream, array}, used as /Contents /Resources /Annots of the page, /Title /Dest of an outline item and /ToUnicode of a font",
-            base: vec![], trailer: Dictionary::new(), slots: vec![], custom: Some((build_chain, vec![CHAIN_LENS.len(), CHAIN_ENDS])), insts });
+            base: vec![], trailer: Dictionary::new(), slots: vec![], custom: Some((build_chain, vec![CHAIN_LENS.len(), CHAIN_ENDS], vec![CHAIN_LENS.len(), CHAIN_ENDS])), insts });
     }
     // ---- root: trailer /Root x kind of object 1 x catalog /Pages
     {
@@ -442,8 +487,9 @@ fn families() -> Vec<Family> {
             Slot { tgt: Tgt::Trailer("Root"), nq: 9, vals: vals(vec![r(1), ab(), r(2), r(99), i(1), d(cat()), r(4), r(6), a(vec![r(1)])]) },
             whole(1, 6, vec![d(cat()), i(1), a(vec![r(2)]), st(cat(), b""), r(1), ab()]),
             key(1, "Pages", 8, vec![r(2), ab(), r(1), r(99), d(dictionary! { "Type" => n("Pages"), "Kids" => a(vec![r(3)]) }), i(1), r(3), r(6)]),
+            key(1, "Outlines", 9, vec![r(5), ab(), d(dictionary! { "First" => r(3) }), r(1), r(99), i(1), r(4), r(6), a(vec![r(5)])]),
         ];
-        out.push(plain("root", "trailer /Root in 9 values x object 1 in {catalog, integer, array, stream, ref to itself, absent} x catalog /Pages in 8 values", base, slots,
+        out.push(plain("root", "trailer /Root in 9 values x object 1 in {catalog, integer, array, stream, ref to itself, absent} x catalog /Pages in 8 values x catalog /Outlines in 9 values", base, slots,
             on(&[Catalog, GetPages, PageIter, Outlines, Toc, ExtractText], 0)));
     }
     // ---- pagetree: Kids / Type / Count chaos with cycles, shared and dangling kids, indirect Kids arrays
@@ -663,6 +709,13 @@ fn families() -> Vec<Family> {
         insts.extend(on(&[PageContent, DecodeContent, ExtractText], 3));
         out.push(plain("streams", "content stream body in 7 byte strings x /Filter(11) x /DecodeParms(8) x /Length(7: wrong, negative, huge, self reference, dangling, name)", base, slots, insts));
     }
+    // ---- uniform: every key the queries read (except First / Next, see outline-links) bound to the same reference on each of 3 dictionaries
+    {
+        let mut insts = on(&[Catalog, GetPages, PageIter, ExtractText, Outlines, Toc], 0);
+        for id in 1..=3 { insts.extend(on(&[PageContents, PageContent, PageResources, PageFonts, PageAnnots, PageImages, ObjectPage, NamedDests, FontEncoding, OutlineNode, Accessors], id)); }
+        out.push(Family { name: "uniform", what: "3 dictionaries, object 1 the trailer /Root; dictionary j has /Type t_j in {Pages, Page, Font, absent} and binds all of 29 keys (Kids Parent Count Contents Resources Font XObject ColorSpace Annots Outlines Dests Names Pages Dest A D S Title Encoding ToUnicode Filter DecodeParms Length F1 Im1 Subtype Width Height BitsPerComponent) to one value v_j in {ref 1, ref 2, [ref 1 ref 2 ref 3], dangling ref, ref 3, no keys}: all 24^3 graphs",
+            base: vec![], trailer: Dictionary::new(), slots: vec![], custom: Some((build_uniform, vec![6, 4, 6, 4, 6, 4], vec![4, 3, 4, 3, 4, 3])), insts });
+    }
     out
 }
 
@@ -710,6 +763,7 @@ fn in_thread(f: impl FnOnce() + Send) {
 fn worker_range(fam: &Family, thorough: bool, start_idx: u64, start_k: usize, end_idx: u64) -> ! {
     worker_limits();
     install_hook();
+    let end_idx = end_idx.min(fam.count(thorough));
     in_thread(|| {
         let mut pending = String::new();
         for idx in start_idx..end_idx {
@@ -869,7 +923,7 @@ pub fn run(thorough: bool) -> Report {
     let mut rep = Report::new(bound.trim_end(), true);
     let mut obligations: HashSet<String> = HashSet::new();
     for f in &fams { for (k, _) in &f.insts { for ob in ["no-panic", "terminates", "bounded-recursion", "no-abort"] { obligations.insert(format!("{}:{}", ob, kind_name(*k))); } } }
-    for k in [GetObject, Dereference, GetDictionary, GetObjectMut, HasObject, GetDictInDict, Catalog] { obligations.insert(format!("lookup-model:{}", kind_name(k))); }
+    for k in [GetObject, Dereference, GetDictionary, GetObjectMut, HasObject, GetDictInDict, Catalog, Accessors] { obligations.insert(format!("lookup-model:{}", kind_name(k))); }
     for k in [GetPages, PageIter] { obligations.insert(format!("pages-sound:{}", kind_name(k))); }
     rep.obligations = obligations.len() as u64;
 
@@ -883,32 +937,50 @@ pub fn run(thorough: bool) -> Report {
     }
     let results: Vec<ChunkOut> = chunks.par_iter().map(|(fi, lo, hi)| run_chunk(&fams[*fi], thorough, *lo, *hi)).collect();
 
+    // failures: per obligation keep the first input of up to 3 DISTINCT observations (panic sites), in index order
     let mut tally: BTreeMap<String, u64> = BTreeMap::new();
+    let mut distinct: BTreeMap<(String, String), (u64, String)> = BTreeMap::new(); // (obligation, observed) -> (count, first input)
     let mut sampled: HashSet<usize> = HashSet::new();
+    let mut pending: Vec<(usize, Fail)> = vec![];
     for ((fi, _, _), out) in chunks.iter().zip(results.into_iter()) {
         let fam = &fams[*fi];
         rep.evaluations += out.evals;
         rep.nontrivial += out.nontrivial;
         for e in out.harness_errors { rep.fail("harness", e.clone(), json!({"family": fam.name}), e); }
         for f in out.fails {
-            let c = tally.entry(f.obligation.clone()).or_insert(0);
-            *c += 1;
-            if *c <= 3 {
-                let input = case_json(fam, thorough, f.idx, f.k);
-                let (kind, arg) = fam.insts[f.k];
-                let detail = format!("{} with argument {:?} on document #{} of family {}: {} -- document: {}", kind_name(kind), arg, f.idx, fam.name, f.observed, describe_doc(&fam.build(f.idx, thorough)));
-                rep.fail(&f.obligation, detail, input, f.observed);
-            }
+            *tally.entry(f.obligation.clone()).or_insert(0) += 1;
+            let e = distinct.entry((f.obligation.clone(), f.observed.clone())).or_insert((0, format!("{} #{}", fam.name, f.idx)));
+            e.0 += 1;
+            if e.0 == 1 { pending.push((*fi, f)); }
         }
         if let Some((idx, k, class)) = out.ok_sample {
-            if sampled.len() < 3 && sampled.insert(*fi) {
+            if sampled.len() < 2 && sampled.insert(*fi) {
                 rep.sample(format!("{} #{}: {} came back with {} on {}", fam.name, idx, kind_name(fam.insts[k].0), if class == b'v' { "a value" } else { "an error" }, describe_doc(&fam.build(idx, thorough))));
             }
         }
     }
+    let mut kept: BTreeMap<String, u64> = BTreeMap::new();
+    for (fi, f) in pending {
+        let c = kept.entry(f.obligation.clone()).or_insert(0);
+        *c += 1;
+        if *c > 3 { continue; }
+        let fam = &fams[fi];
+        let input = case_json(fam, thorough, f.idx, f.k);
+        let (kind, arg) = fam.insts[f.k];
+        let detail = format!("{} with argument {:?} on document #{} of family {}: {} -- document: {}", kind_name(kind), arg, f.idx, fam.name, f.observed, describe_doc(&fam.build(f.idx, thorough)));
+        rep.fail(&f.obligation, detail, input, f.observed);
+    }
     if !tally.is_empty() {
         let t: Vec<String> = tally.iter().map(|(k, v)| format!("{} x{}", k, v)).collect();
         rep.samples.insert(0, format!("failing evaluations per obligation: {}", t.join(", ")));
+        let mut by_obs: BTreeMap<String, (Vec<String>, u64, String)> = BTreeMap::new();
+        for ((ob, obs), (c, first)) in &distinct {
+            let e = by_obs.entry(obs.clone()).or_insert((vec![], 0, first.clone()));
+            e.0.push(ob.split(':').nth(1).unwrap_or(ob).to_string());
+            e.1 += c;
+        }
+        let dd: Vec<String> = by_obs.iter().map(|(obs, (qs, c, first))| format!("[{}] in {} (x{}, first at {})", obs, qs.join("/"), c, first)).collect();
+        rep.samples.insert(1, format!("distinct observations: {}", dd.join("; ")));
         rep.samples.truncate(4);
     }
     rep
